@@ -30,6 +30,8 @@ type e3Scenario struct {
 	Schedule   []int    ` + "`json:\"schedule\"`" + `
 	NoPrune    bool     ` + "`json:\"no_prune\"`" + `
 	LogOutput  bool     ` + "`json:\"log_output\"`" + `
+	Shard      int      ` + "`json:\"shard\"`" + `
+	Shards     int      ` + "`json:\"shards\"`" + `
 }
 
 type memW struct{ b *bytes.Buffer }
@@ -214,7 +216,7 @@ func main() {
 		fmt.Println(string(js))
 		return
 	}
-	cfg := vsched.Config{Bound: sc.Bound, MaxExecs: sc.MaxExecs, Body: body, Check: check, NoPrune: sc.NoPrune}
+	cfg := vsched.Config{Bound: sc.Bound, MaxExecs: sc.MaxExecs, Body: body, Check: check, NoPrune: sc.NoPrune, Shard: sc.Shard, Shards: sc.Shards}
 	if sc.DeadlineS > 0 {
 		cfg.Deadline = time.Now().Add(time.Duration(sc.DeadlineS * float64(time.Second)))
 	}
